@@ -14,6 +14,9 @@ inputs = ["{\"a\": [{\"b\": 2}, {\"b\": 1}], \"b\": {\"x\": \"y\"}}", "{\"a\": \
 # failing compiles of long one-line expressions with multi-byte characters at every alignment around the error position
 exprs += ['"' + "\u2603" * k + '" ||| b' for k in range(30, 42)] + ["foo ||| '" + "\u00e9" * k + "'" for k in range(30, 42)] + \
          ["'" + "\U0001F600" * k + "' | a[" for k in (16, 17, 18, 19, 20, 40)] + ["a." * 40 + "b", "a." * 40 + ".b", "length(k)", "k"]
+# expression files: line breaks of every kind inside and between tokens (a raw string may span lines; CR LF is two characters of it)
+crlf = ["'x\r\ny'", "[k == 'x\r\ny', length('\r\n')]", "'x\ry'", "'x\ny'", "a\r\n.\r\nb", "`\"x\\r\\ny\"`", "'tail\r\n'", "a\r\n", "\r\na", "'\r'"]
+exprs += crlf
 # inputs of more than 64 KiB / 128 KiB: U+E000 stands for a run of `pad` letters (expanded by the driver), so that the multi-byte
 # character after it lands on every alignment around the 65536th / 131072nd byte
 biginputs = ["{\"k\":\"\ue000\u00e9 tail\"}", "{\"k\":\"\ue000\U0001F600\u20ac\"}"]
@@ -21,5 +24,6 @@ pads = list(range(65524, 65534)) + list(range(131060, 131070)) + [10, 4090, 8190
 out = os.path.join(VERIF, "spec", "gen", "cli_pools.ndjson")
 with open(out, "w") as f:
     f.write(json.dumps({"exprs": [cps(e) for e in exprs], "inputs": [cps(i) for i in inputs],
-                        "biginputs": [cps(i) for i in biginputs], "pads": pads, "bigexprs": [len(exprs) - 1, len(exprs)]}) + "\n")
+                        "biginputs": [cps(i) for i in biginputs], "pads": pads, "bigexprs": [len(exprs) - len(crlf) - 1, len(exprs) - len(crlf)],
+                        "crlfexprs": list(range(len(exprs) - len(crlf) + 1, len(exprs) + 1))}) + "\n")
 print("wrote", out, len(exprs), len(inputs))
